@@ -9,12 +9,15 @@ R14.2  reference agreement with addons/cppcheckdata.py (Python ast): for every d
        Python parser maps to a class, each attribute the class reads is written by the C++ writers
        under that element name, every attribute whose value is an id_string(...) reference is read,
        and every *Id field is resolved in setId().
+R14.3  closure of deferred collections: when a writer emits the defining elements of a class from a local collection
+       (SymbolDatabase::printXml: <var id=...> from `variables`), every local pointer of that class whose id is written
+       as a reference attribute is added to that collection unconditionally in the block that writes the reference.
 Not decided: symmetric bracket links / AST forest shape (properties of the tokenizer's data).
 """
 import ast
 import collections
 
-from .common.facts import walk, strip_all, AnalysisBroken
+from .common.facts import walk, walk_parents, strip, strip_all, call_args, AnalysisBroken
 from .common import xmlmodel
 from .common.reports import Reports
 
@@ -70,6 +73,7 @@ def run(ctx):
     written = collections.defaultdict(dict)     # tag -> attr -> set(kinds)
     orphans = {}
     tags_of_fn = {}
+    els_of_fn = []
     nops = 0
     nwriters = 0
     for k, (f, _, _) in sorted(reach.items()):
@@ -82,6 +86,7 @@ def run(ctx):
         if not els:
             continue
         nwriters += 1
+        els_of_fn.append((f, els))
         tags_of_fn[F.key(f)] = [e_['tag'] for e_ in els if not e_['tag'].startswith('#')]
         own_tags = [e_['tag'] for e_ in els if not e_['tag'].startswith('#')]
         for e in els:
@@ -126,6 +131,71 @@ def run(ctx):
                         kinds.update(p_[1] for p_ in v['dyn'] if p_)
     ctx.floor('R14.1 dump writer functions with markup', nwriters, 8)
     ctx.floor('R14.1 run-time operands in attribute values', nops, 100)
+
+    # ---- R14.3 deferred element collections are closed under the references written -------------------------------
+    ctx.rule('R14.3', 'every object whose id is written as a reference is put into the collection its defining element is later emitted from')
+    ndeferred = 0
+    for f, els in els_of_fn:
+        body = F.body(f)['body']
+        par = {}
+        for x, parents in walk_parents(body):
+            par[id(x)] = parents
+
+        def operand(p):
+            """(pointee type, root DeclRefExpr or None) of an id_string(...) operand"""
+            n = p[3]
+            arg = call_args(n)[0] if call_args(n) else None
+            t = None
+            x = arg
+            while x is not None and x.get('k') in ('ImplicitCastExpr', 'ParenExpr') and x.get('c'):
+                if x.get('ck') == 'BitCast':
+                    t = x['c'][0].get('t')
+                x = x['c'][0]
+            return t, x
+
+        deferred = {}    # pointee type -> (collection di, name, line)
+        for e in els:
+            for p in e['attrs'].get('id', {}).get('dyn', ()):
+                if not p or p[1] != 'call:id_string':
+                    continue
+                t, root = operand(p)
+                if root is None or root.get('k') != 'DeclRefExpr':
+                    continue
+                for anc in reversed(par.get(id(p[3]), ())):
+                    if anc.get('k') == 'CXXForRangeStmt' and anc.get('var') is not None and anc['var'].get('di') == root.get('di'):
+                        rng = strip(anc.get('range')) if anc.get('range') else None
+                        while rng is not None and rng.get('k') in ('ImplicitCastExpr',) and rng.get('c'):
+                            rng = rng['c'][0]
+                        if rng is not None and rng.get('k') == 'DeclRefExpr' and rng.get('dk') == 'Var' and any(
+                                d.get('k') == 'VarDecl' and d.get('di') == rng.get('di') for d in walk(body)):
+                            deferred[t] = (rng['di'], rng.get('n'), anc['l'], e['tag'])
+                        break
+        for t, (cdi, cname, cline, ctag) in deferred.items():
+            ndeferred += 1
+            for e in els:
+                for an, v in e['attrs'].items():
+                    if an == 'id':
+                        continue
+                    for p in v['dyn']:
+                        if not p or p[1] != 'call:id_string':
+                            continue
+                        t2, root = operand(p)
+                        if t2 != t or root is None or root.get('k') != 'DeclRefExpr' or root.get('dk') not in ('Var',):
+                            continue
+                        # innermost compound statement around the reference write
+                        blk = next((a for a in reversed(par.get(id(p[3]), ())) if a.get('k') == 'CompoundStmt'), None)
+                        ins = False
+                        for st in (blk or {}).get('c', ()):
+                            s0 = strip(st)
+                            if s0.get('k') == 'CXXMemberCallExpr' and (s0.get('fn') or '').split('::')[-1] in ('insert', 'push_back', 'emplace', 'emplace_back') and \
+                                    any(y.get('di') == cdi for y in walk(s0['c'][0])) and any(y.get('di') == root.get('di') for a_ in call_args(s0) for y in walk(a_)):
+                                ins = True
+                        ctx.ob('R14.3', 'closure:%s:%s@%s' % (f['name'], e['tag'], an), ins,
+                               ('<%s %s> references `%s`, which is added to `%s` (emitted as <%s id=...>) in the same block' % (e['tag'], an, root.get('n'), cname, ctag)) if ins else
+                               ('<%s %s> writes the id of `%s` (%s) but does not add it unconditionally to `%s`, the collection the <%s id=...> elements are emitted from '
+                                '(line %s): the reference can dangle in the dump and cppcheckdata.py fails to resolve it' % (e['tag'], an, root.get('n'), t, cname, ctag, cline)),
+                               '%s:%s' % (f['file'], p[3].get('l')))
+    ctx.floor('R14.3 deferred element collections', ndeferred, 1)
 
     # ---- R14.2 ------------------------------------------------------------------------------------------------
     src = ctx.read(PY)
